@@ -28,7 +28,7 @@ META = {
     "ready": True,
     "level": "exploration",
     "technique": "TLA+ reference table of instruction immediate-field layouts checked by TLC (consistency, Local/Oblivious/RoundTrip) whose exported vectors and masks are replayed into the real write_to_value/read_value in-process; plus an end-to-end AArch64 link of an object with pre-filled immediates",
-    "level_text": "For 26 encodings (10 AArch64, 9 RISC-V, 7 LoongArch uses) TLC checks the transcribed field table and exports ~10^4 exact vectors; each is replayed into the real write_to_value (exact word equality), and every encoding is swept against the exported mask/segments over all in-range values (fields <= 16 bits; <= 21 bits in thorough) or 10^5-10^6 seeded random values x 8 initial words for locality, obliviousness to the previous field content, exact ISA placement and read_value inversion; one AArch64 link with pre-filled immediates is decoded end-to-end.",
+    "level_text": "For 25 encodings (10 AArch64, 9 RISC-V, 6 LoongArch uses) TLC checks the transcribed field table and exports ~10^4 exact vectors; each is replayed into the real write_to_value (exact word equality), and every encoding is swept against the exported mask/segments over all in-range values (fields <= 16 bits; <= 21 bits in thorough) or 10^5-10^6 seeded random values x 8 initial words for locality, obliviousness to the previous field content, exact ISA placement and read_value inversion; one AArch64 link with pre-filled immediates is decoded end-to-end.",
     "level_note": "Encode/decode fidelity of pure functions: TLA+ contributes the reference table and the enumeration, TLC does not explore the 2^32 initial words (sampled: 7 patterns + random). Field layouts are my transcription of the ISA manuals (cross-checked end-to-end only for AArch64 against ld.lld). LoongArch64Instruction::Call30 and MachOLow12 are not covered. read_value is compared only on the value bits the field covers (its sign-extension convention is not judged).",
     "engine": "tlc",
 }
